@@ -2343,11 +2343,14 @@ class FileSet:
             raise ValueError('Cannot use temporal placeholders if year, month '
                              'and day are not set.')
 
-        end_datetime_args = self._standardise_datetime_args(end_args)
+        # An end without its own year (e.g. only end_doy) takes it from the
+        # start like every other missing field:
+        end_datetime_args = self._standardise_datetime_args(
+            end_args, default_year=start_datetime_args.get("year"))
 
         return start_datetime_args, end_datetime_args
 
-    def _standardise_datetime_args(self, args):
+    def _standardise_datetime_args(self, args, default_year=None):
         """Replace some placeholders to datetime-conform placeholder.
 
         Args:
@@ -2375,11 +2378,12 @@ class FileSet:
 
         doy = args.pop("doy", None)
         if doy is not None:
-            date = datetime(args["year"], 1, 1) + timedelta(doy - 1)
-            if doy < 1 or date.year != args["year"]:
+            year = args.get("year", default_year)
+            date = datetime(year, 1, 1) + timedelta(doy - 1)
+            if doy < 1 or date.year != year:
                 # like datetime() does for month 13 or the 30th of February
                 raise ValueError(
-                    f"day of year {doy} is out of range for {args['year']}")
+                    f"day of year {doy} is out of range for {year}")
             args["month"] = date.month
             args["day"] = date.day
 
